@@ -78,6 +78,12 @@ func (vc *VC) execCall(fr *Frame, n *Node, instr ssa.Instruction, call *ssa.Call
 	}
 	if callee == nil {
 		// unknown function value: closed-world targets (every repository function of that signature used as a value)
+		dkey := dynCallName(call.Value)
+		fr.callOrd["@dyn "+dkey]++
+		dord := fr.callOrd["@dyn "+dkey]
+		fr.ghostArgs = map[string]Val{}
+		vc.ghostAt(fr, n, "before", dkey, dord)
+		defer func() { vc.ghostAt(fr, n, "after", dkey, dord, res) }()
 		targets := vc.p.funcValueTargets(call.Signature())
 		vc.used["calls through function values resolved closed-world over ./pkg/... and ./cmd/kevo (functions of identical signature whose value is taken)"] = true
 		maps := map[string]bool{}
@@ -106,6 +112,26 @@ func (vc *VC) execCall(fr *Frame, n *Node, instr ssa.Instruction, call *ssa.Call
 		return n
 	}
 	return vc.callStatic(fr, n, callee, ci, call, res, args, instr.Pos())
+}
+
+// dynCallName: anchor name of a call through a function value = the source name of the variable/parameter holding it.
+func dynCallName(v ssa.Value) string {
+	switch v := v.(type) {
+	case *ssa.Parameter:
+		return v.Name()
+	case *ssa.UnOp:
+		if a, ok := v.X.(*ssa.Alloc); ok && a.Comment != "" {
+			return a.Comment
+		}
+		if fv, ok := v.X.(*ssa.FreeVar); ok {
+			return fv.Name()
+		}
+		if fa, ok := v.X.(*ssa.FieldAddr); ok {
+			st := fa.X.Type().Underlying().(*types.Pointer).Elem().Underlying().(*types.Struct)
+			return "." + st.Field(fa.Field).Name()
+		}
+	}
+	return "?"
 }
 
 func (vc *VC) isRepoFn(fn *ssa.Function) bool {
